@@ -131,9 +131,9 @@ fn check(sink: &Arc<Mutex<Vec<SpanRecord>>>, c: &Case, uniq: &mut u64) -> Vec<Vi
         out.push(Viol { sig: "poll-count".into(), msg: format!("{}: annotated needed {} polls, plain {}", who, ann.out.polls, plain.out.polls) });
     }
     // --- records
-    let ours: Vec<&SpanRecord> = ann.records.iter().filter(|r| r.name != ann.root_name && r.name != ann.local_name).collect();
+    let ours: Vec<&SpanRecord> = ann.records.iter().filter(|r| r.name != ann.root_name && r.name != ann.local_name && r.name != rt::ELSEWHERE).collect();
     // the plain twin records nothing by itself
-    let plain_ours: Vec<&SpanRecord> = plain.records.iter().filter(|r| r.name != plain.root_name && r.name != plain.local_name).collect();
+    let plain_ours: Vec<&SpanRecord> = plain.records.iter().filter(|r| r.name != plain.root_name && r.name != plain.local_name && r.name != rt::ELSEWHERE).collect();
     if !plain_ours.is_empty() {
         out.push(Viol { sig: "harness".into(), msg: format!("{}: the plain twin recorded spans: {:?}", who, plain_ours.iter().map(|r| r.name.to_string()).collect::<Vec<_>>()) });
     }
